@@ -9,9 +9,10 @@ Oracle on the real code (per event, both modes, both caller behaviours):
 Correspondence: the per-event results of each real strategy vs gdrv `C17 trace`, the `supports`
 verdicts and the strategy chosen by Path.__init__ vs `C17 can`, SimplePathStrategy's fragments
 and KMP tables vs `C17 frags`, and "is the path in the scope of simple_eq_generic_fragments_partial"
-(`C17 inscope`: FragsOk of its fragment list, the path is the path of that list) vs the same
+(`C17 inscope`: FragsOk of its fragment list, the path is the path of that list) and of
+simple_eq_generic_spellings_partial (every step supported, none on the attribute axis) vs the same
 read off the real parsed path (supported, fragments not None, no attribute step, no `self::` step
-after the first).  Every strategy class is forced on every path it `supports` (not only the one
+after the first / supported, no attribute step).  Every strategy class is forced on every path it `supports` (not only the one
 Path.__init__ picks).  `dist` counts how many SimplePathStrategy paths have >= 2 fragments, failure
 tables with a non-zero entry, and documents on which the KMP loop actually falls back to a
 non-zero table entry.
@@ -240,8 +241,8 @@ def gen_case(rng):
         case['ns_events'] = True
     if rng.random() < 0.14:
         # aimed at SimplePathStrategy's hand-over between fragments and its KMP fall-back
-        case['doc'] = G.rand_doc(rng, rng.choice([9, 12, 16]), deep=True)
-        case.update(kind='strategies', path=G.rand_fragpath(rng))
+        doc, text = G.rand_fragcase(rng)
+        case.update(doc=doc, kind='strategies', path=text)
         return case
     if r < 0.6:
         profile = rng.choice([G.SIMPLE, G.SIMPLE, G.STRUCT, G.FULL])
@@ -299,12 +300,12 @@ def real_scope(text):
         if not P.SimplePathStrategy.supports(p):
             out.append(N)
             continue
-        if P.SimplePathStrategy(p).fragments is None:
-            out.append(Atom('none'))
-            continue
         has_attr = any(st[0] is P.ATTRIBUTE for st in p)
+        if P.SimplePathStrategy(p).fragments is None:
+            out.append([Atom('none'), B(not has_attr)])
+            continue
         inner_self = any(st[0] is P.SELF for st in p[1:])
-        out.append([B(not has_attr), B(not has_attr and not inner_self)])
+        out.append([B(not has_attr), B(not has_attr and not inner_self), B(not has_attr)])
     return out
 
 
@@ -411,7 +412,10 @@ def check_cases(cases, res):
             ask('inscope', i, proto.line(Atom('C17'), Atom('inscope'), text), sc)
             for x in sc[1:]:
                 if isinstance(x, list):
-                    res.count('simple:in-theorem-scope' if x == [B(True), B(True)] else 'simple:outside-theorem-scope')
+                    res.count('simple:in-fragment-theorem-scope' if x[:2] == [B(True), B(True)]
+                              else 'simple:outside-fragment-theorem-scope')
+                    res.count('simple:in-spelling-theorem-scope' if x[-1] == B(True)
+                              else 'simple:outside-spelling-theorem-scope')
             frag_stats(text, case['doc'], res)
             hit = False
             for ic, skip in modes():
